@@ -75,3 +75,7 @@ pub(crate) fn per_type_lookup_new(variants: &[NodeRef<'static>]) -> PerTypeLooku
 pub(crate) fn per_type_lookup_placeholder() -> PerTypeLookup<'static> {
 	PerTypeLookup::placeholder()
 }
+
+pub(crate) fn lookup_null_long(null: NodeRef<'static>, long: NodeRef<'static>) -> PerTypeLookup<'static> {
+	super::union_variants_per_type_lookup::verif::lookup_null_long(null, long)
+}
